@@ -155,3 +155,41 @@ PROPS["C12"] = dict(
              shards=8, shard_depth=4, bounds={"calls": "Sign, then Sign on the same topic", "outcome of the first": "5 symbolic outcomes", "schedules": "all choices of the next goroutine at blocking points"}),
     ],
 )
+
+_MSG_ENV = COMMON_ENV + ["the Box's ticker never fires (injected NewTicker); the epoch counter is written directly by the harness (arbitrary non-decreasing values)",
+                         "recording MessageHandler / ForwardSend stubs"]
+PROPS["C14"] = dict(
+    level="model_checking",
+    explanation="S2 with a symbolic thread schedule: the real Box.HandleMessage x2 (one sender, one topic) in one goroutine, the first Box.Send on the topic in another (optionally a third receiver), "
+                "context switches at every mutex operation chosen by the solver under a preemption bound; ghost call intervals separate 'during the first send' from 'before/after'",
+    assumptions=_MSG_ENV + ["switching only at synchronisation operations is complete for data-race-free code (race freedom of the box is examined by C20)",
+                            "a message parked until the next Send on the topic counts as late, not lost (one further Send is made before the verdict)"],
+    outside=["more than 3 goroutines / 3 messages", "more than 2 (quick) / 3 (thorough) preemptions", "the GC path racing with delivery"],
+    runs=[
+        dict(dir="msg", files=["msg_c14.go.txt"], entry="verifH_C14", args=["-realhex", "-acqonly", "-preempt", "2"], replay_args=["-instr", "msgbox.go"], shards=16, shard_depth=5,
+             count=["assert:C14-", "panic:", "deadlock:"], expect_covers=["end", "received-during-first-send"], replay_repeat=3,
+             bounds={"goroutines": "2 + main (+ the box's clock daemon, blocked forever)", "messages": 2, "preemptions": "<= 2", "switch points": "before every Lock/RLock and channel operation, at blocking and goroutine exit (releases are left-movers)"},
+             tiers={"thorough": {"args": ["-realhex", "-acqonly", "-preempt", "4"], "bounds": {"preemptions": "<= 4"}}}),
+        dict(dir="msg", files=["msg_c14.go.txt"], entry="verifH_C14", args=["-realhex", "-acqonly", "-preempt", "1"], params={"hThird": 1}, replay_args=["-instr", "msgbox.go"], shards=16, shard_depth=5,
+             count=["assert:C14-", "panic:", "deadlock:"], expect_covers=["end"], replay_repeat=3,
+             bounds={"goroutines": "3 + main", "messages": 3, "third message": "other sender, same or other topic (symbolic)", "preemptions": "<= 1"},
+             tiers={"thorough": {"args": ["-realhex", "-acqonly", "-preempt", "3"], "bounds": {"preemptions": "<= 3"}}}),
+    ],
+)
+PROPS["C15"] = dict(
+    level="model_checking",
+    explanation="S2, sequential: k symbolic operations (receive from one of two senders on one of three topics, Send on a topic, jump of the epoch clock) on the real Box with small limits; "
+                "a ghost model says which messages were within the limits when they arrived; bookkeeping maps are read in-package",
+    assumptions=_MSG_ENV + ["MaxInFlightTopicsBySender = 1 (2 thorough), GCExpire = 4 sweep periods", "wall clock symbolic (any non-decreasing instants in 2020..2096); the code no longer reads it after the expiry fix"],
+    outside=["more than k operations", "the per-topic message limit of 100 beyond the single concrete burst scenario", "the real ticker goroutine"],
+    runs=[
+        dict(name="release/bounded/sequential exactly-once", dir="msg", files=["msg_c15.go.txt"], entry="verifH_C15_seq", args=["-realhex", "-preempt", "0"], params={"hK": 4, "hMax": 1}, shards=16, shard_depth=5,
+             count=["assert:C15-", "panic:", "deadlock:"], expect_covers=["end"], bounds={"operations": 4, "topics": 3, "senders": 2, "MaxInFlightTopicsBySender": 1, "epoch": "constant (nothing may expire)"},
+             tiers={"thorough": {"params": {"hK": 5, "hMax": 2}, "bounds": {"operations": 5, "MaxInFlightTopicsBySender": 2}}}),
+        dict(name="expiry and release after idle periods", dir="msg", files=["msg_c15.go.txt"], entry="verifH_C15_gc", args=["-realhex", "-preempt", "0"], params={"hK": 3, "hMax": 1}, shards=16, shard_depth=5,
+             count=["assert:C15-", "panic:", "deadlock:"], expect_covers=["end"], bounds={"operations": 3, "epoch jumps": "any 0..1000 epochs each, start epoch < 1000", "final": "two Sends on an unrelated topic, each > 2x expiry later"},
+             tiers={"thorough": {"params": {"hK": 4}, "bounds": {"operations": 4}}}),
+        dict(name="burst of 103 messages of one sender on one topic", dir="msg", files=["msg_c15.go.txt"], entry="verifH_C15_limit", args=["-realhex", "-preempt", "0", "-unwind", "128"],
+             count=["assert:C15-", "panic:", "deadlock:"], expect_covers=["end"], bounds={"messages": 103}),
+    ],
+)
